@@ -686,7 +686,7 @@ func coldRun(body []byte) *core.Verdict {
 	// every position in what a pipeline reports names a file of its own set
 	reFile := regexp.MustCompile(`([A-Za-z0-9_.-]+\.yang):\d+:\d+`)
 	foreign := func(g []string, dump string) string {
-		own := map[string]bool{}
+		own := map[string]bool{"cc.yang": true}
 		for _, id := range g {
 			own[id+".yang"] = true
 		}
@@ -700,6 +700,12 @@ func coldRun(body []byte) *core.Verdict {
 	}
 	build := func(g []string) string {
 		ms := yang.NewModules()
+		// every set also loads a text with strings written in several pieces joined by "+" (a pattern, so that the
+		// joined text shows in what is compared), different in every set
+		cc := fmt.Sprintf("module cc { namespace \"urn:cc\"; prefix cc; description \"d\" + \"e\" + \"%s\";\n  leaf l { type string { pattern \"x\" + \"%s\" + \"z.*\"; length \"1\" + \"..\" + \"9\"; } } }", g[0], g[0])
+		if err := ms.Parse(cc, "cc.yang"); err != nil {
+			return "load of cc failed: " + err.Error()
+		}
 		for _, id := range g {
 			if err := ms.Parse(texts(id), id+".yang"); err != nil {
 				return "load of " + id + " failed: " + err.Error()
